@@ -22,6 +22,9 @@ use super::autotraits::{
 use super::repo::{loc, SrcFile};
 use super::{GenFile, Repo, HEADER};
 
+#[path = "doors.rs"]
+pub mod doors;
+
 /// Definitions whose first lifetime parameter is the borrow region of a Hip value.
 pub const HIP_DEFS: &[&str] = &[
     "bytes::raw::HipByt",
@@ -934,6 +937,8 @@ pub struct FnRow {
     /// program that lets the result outlive a LOCAL receiver (every other lifetime is `'static`),
     /// and the skeleton's prediction of rustc's verdict. `None` = not applicable.
     pub self_escape: Option<Result<SelfEscape, String>>,
+    /// C06 "doors" row: the fn's return type mentions HipStr / HipOsStr / HipPath
+    pub door: Option<doors::Door>,
 }
 
 #[derive(Clone, Debug)]
@@ -974,6 +979,8 @@ struct Owner<'a> {
     trait_path: Option<syn::Path>,
     is_trait_decl: bool,
     anon_count: usize,
+    /// `type X = …;` items of the impl (to read `Self::X` in return types)
+    assoc: Vec<(String, syn::Type)>,
 }
 
 fn has_safety_heading(attrs: &[syn::Attribute]) -> bool {
@@ -1543,7 +1550,9 @@ fn make_row(
     } else {
         None
     };
+    let door = doors::classify(cm, module, owner, sig, || make_probe(cm, module, owner, sig));
     Ok(FnRow {
+        door,
         forwards,
         self_escape,
         name: if owner.prefix.is_empty() {
@@ -1640,6 +1649,7 @@ fn macro_rows(prefix: &str, file: &SrcFile, ts: proc_macro2::TokenStream, rows: 
             loc: format!("{}:{}", file.rel, line),
             probe: Err("defined in a macro body (covered by the probe of the trait method it implements)".into()),
             self_escape: None,
+            door: None,
         });
     }
 }
@@ -1768,6 +1778,7 @@ pub fn collect(cm: &CrateModel) -> Result<Collected, String> {
                         trait_path: None,
                         is_trait_decl: false,
                         anon_count: 0,
+                        assoc: vec![],
                     };
                     rows.push(make_row(cm, mi, file, &owner, &f.sig, &f.attrs, Some(&f.block))?);
                 }
@@ -1792,6 +1803,7 @@ pub fn collect(cm: &CrateModel) -> Result<Collected, String> {
                         trait_path: if t.generics.params.is_empty() { Some(tpath) } else { None },
                         is_trait_decl: true,
                         anon_count: 0,
+                        assoc: vec![],
                     };
                     for ti in &t.items {
                         if let syn::TraitItem::Fn(f) = ti {
@@ -1849,6 +1861,14 @@ pub fn collect(cm: &CrateModel) -> Result<Collected, String> {
                         trait_path: im.trait_.as_ref().map(|(_, p, _)| p.clone()),
                         is_trait_decl: false,
                         anon_count: hcx.counter,
+                        assoc: im
+                            .items
+                            .iter()
+                            .filter_map(|ii| match ii {
+                                syn::ImplItem::Type(t) => Some((t.ident.to_string(), t.ty.clone())),
+                                _ => None,
+                            })
+                            .collect(),
                     };
                     let _ = owner.anon_count;
                     for ii in &im.items {
@@ -2235,8 +2255,14 @@ pub fn generate(repo: &Repo) -> Result<Vec<GenFile>, String> {
     if c.rows.len() < 100 {
         return Err(format!("only {} callable functions found — reachability broken?", c.rows.len()));
     }
-    Ok(vec![GenFile {
-        name: "PubFns.lean".into(),
-        content: render(&c),
-    }])
+    Ok(vec![
+        GenFile {
+            name: "PubFns.lean".into(),
+            content: render(&c),
+        },
+        GenFile {
+            name: "Doors.lean".into(),
+            content: doors::render(&c.rows),
+        },
+    ])
 }
